@@ -196,17 +196,41 @@ def gen(rng, tier, shard, nshards):
                 if any(b2 == b and k2 != kind for _, b2, k2 in bads):
                     continue      # printed errors are attributed by the echoed text: one expectation per text
                 bads.append([p, b, kind])
+            if fmt == "dbc" and rng.random() < 0.4:
+                # the malformed twin of a good attribute line, after it: the good value must survive
+                goods = []
+                for n, l in enumerate(lines):
+                    g = re.match(r'^BA_ "(\w+)" (BO_ \d+|SG_ \d+ \w+|BU_ \w+) -?[\d.]+;\s*$', l)
+                    if g:
+                        kw = g.group(2).split(" ")[0]
+                        defline = [k for k, dl in enumerate(lines[:n]) if re.match(r'^BA_DEF_ %s +"%s" (INT|HEX|FLOAT)' % (kw, g.group(1)), dl)]
+                        later = [q for q in pos if q > n]
+                        if defline and later:
+                            goods.append((g, later))
+                if goods:
+                    g, later = rng.choice(goods)
+                    b = 'BA_ "%s" %s abc;' % (g.group(1), g.group(2))
+                    if not any(b2 == b for _, b2, _ in bads):
+                        bads.append([rng.choice(later), b, "wrongvalue"])
             if bads:
                 yield {"op": "bad", "c": {"fmt": fmt, "text": text, "ins": bads, "bad": [b for _, b, _ in bads]}}
         else:
             n = len(text)
-            ks = sorted({rng.randrange(n + 1) for _ in range(25)} | {0, n})
+            ks = {rng.randrange(n + 1) for _ in range(25)} | {0, n}
+            # cuts inside a token: right after a punctuation character (a lone '-' of '-m', '/' of '/f:', an open quote or bracket)
+            for ch in '-/:=,"([|@':
+                occ = [i + 1 for i, x in enumerate(text) if x == ch]
+                ks |= set(rng.sample(occ, min(len(occ), 3)))
+            ks = sorted(ks)
             for k in ks:
                 yield {"op": "cut", "c": {"fmt": fmt, "text": text, "k": k}}
     if tier == "thorough" and shard == 0:
         text = gen_text(rng, "dbc")[:4000]
         for k in range(len(text) + 1):
             yield {"op": "cut", "c": {"fmt": "dbc", "text": text, "k": k}}
+        text = gen_text(rng, "sym")[:4000]
+        for k in range(len(text) + 1):
+            yield {"op": "cut", "c": {"fmt": "sym", "text": text, "k": k}}
 
 
 def neighbours(case, rng, shard, nshards):
